@@ -253,6 +253,12 @@ impl Check for C06 {
                                 T_CHAIN,
                                 format!("{} {} {} {} {}", a, o1, b, o2, c3),
                             ));
+                            // parentheses on the right are honoured (no re-association)
+                            cases.push(Case::new(
+                                format!("x := {}\ny := {}\nprint(x {} (y {} {}))\n", lit(a), lit(b), o1, o2, lit(c3)),
+                                T_CHAIN,
+                                format!("{} {} {} {} {} R", a, o1, b, o2, c3),
+                            ));
                         }
                     }
                 }
@@ -368,7 +374,7 @@ impl Check for C06 {
                 let c3: i64 = p[4].parse().unwrap();
                 let (o1, o2) = (p[1], p[3]);
                 let tight = |o: &str| o == "*";
-                let result: Option<i128> = if tight(o2) && !tight(o1) {
+                let result: Option<i128> = if p.len() > 5 || (tight(o2) && !tight(o1)) {
                     exact(o2, b, c3).and_then(|t| exact(o1, a, t as i64))
                 } else {
                     exact(o1, a, b).and_then(|t| exact(o2, t as i64, c3))
